@@ -120,7 +120,8 @@ def handle1 (args : List String) : String :=
       mhab { qm := pShapeD (g "qm"), km := pShapeD (g "km"), vm := pShapeD (g "vm"), qbias := pShapeD (g "qbias"), qmul := pShapeD (g "qmul"),
              dt := pNat (g "dt"), qb := pBool (g "qb"), kb := pBool (g "kb"), vb := pBool (g "vb"),
              biasFirst := pBool (g "bias_first"), heads := pNat (g "heads"), pre := pOptFloat (g "pre"),
-             preConst := pBool (g "pre_const"), ascale := pOptFloat (g "ascale"), mask := pBool (g "mask") }
+             preConst := pBool (g "pre_const"), ascale := pOptFloat (g "ascale"), mask := pBool (g "mask"),
+             bias0 := pBool (g "bias0") }
     | "pipe" =>
       pipe { qm := pShapeD (g "qm"), heads := pNat (g "heads"), qProj := g "q_proj", kb := pBool (g "kb"),
              vb := pBool (g "vb"), s := pFloat (g "s"), sdpaScale := pOptFloat (g "sdpa_scale"), mask := pBool (g "mask"), mask1d := pBool (g "mask1d") }
